@@ -82,7 +82,7 @@ template <class X> struct Hist {
     void run(Ctx& ctx) {
         c = &ctx; Rng& r = ctx.rng; trace.clear();
         LibcWatch& lw = libc_watch(); lw.live.clear();
-        int steps = r.range(3, 12);
+        int steps = r.chance(1, 12) ? r.range(13, 40) : r.range(3, 12);
         for (int st = 0; st < steps; st++) {
             int op = r.below(10);
             c->stage((uint64_t)st * 16 + (uint64_t)op);
